@@ -36,6 +36,7 @@ TRX = {
         {"id": "t8", "iss": "N1", "rcv": "A", "amt": 1, "data": False},
         {"id": "t9", "iss": "A", "rcv": "B", "amt": 0, "data": False},
         {"id": "t5", "iss": "B", "rcv": "A", "amt": 0, "data": True},
+        {"id": "t10", "iss": "A", "rcv": "B", "amt": 1, "data": True, "nc": True},
     ],
     "two": [
         {"id": "t1", "iss": "GR", "rcv": "A", "amt": 10, "data": False},
@@ -48,7 +49,7 @@ UNITS = [[1, 0], [0, 600000000000000000], [3, 999999999999999999], [0, 1], [0, 2
 
 # RootRule / CkSelf describe the tree being verified; they are flipped to the repaired values by
 # the same commit that repairs the code (see known_findings.json "fixed" entries).
-CODE_MODEL = {"RootRule": '"genesis"', "CkSelf": '"both"'}
+CODE_MODEL = {"RootRule": '"genesis"', "CkSelf": '"both"', "CanonRule": '"guarded"'}
 
 SHAPES = {
     # name: (nodes, wallets, sealers, profile)
@@ -68,20 +69,20 @@ def mc_constants(shape, maxv, inflight, maxcraft, toggle, trunc=2, jump="{}", ma
          "Sealers": tla_set(sealers), "MaxV": str(maxv), "MaxInflight": str(inflight), "JumpW": jump,
          "Profile": '"%s"' % profile, "MaxCraft": str(maxcraft), "MaxToggle": str(toggle),
          "GenDepth": str(gendepth), "MaxThr": str(maxthr)}
-    c.update(model or {"RootRule": '"genesis"', "CkSelf": '"both"'})
+    c.update(model or {"RootRule": '"genesis"', "CkSelf": '"both"', "CanonRule": '"guarded"'})
     return c
 
 
 def cfg_of(shape, trunc, unit):
     nodes, wallets, sealers, profile = SHAPES[shape]
     return {"nodes": nodes, "wallets": wallets, "gr": "N1" if shape == "rules-selfgenesis" else "GR", "supply": 10,
-            "truncDepth": trunc, "unit": unit, "trx": TRX[profile]}
+            "truncDepth": trunc, "unit": unit, "trx": [dict(t, nc=t.get("nc", False)) for t in TRX[profile]]}
 
 
 # ------------------------------------------------------------------------------------------
 # MC
 
-MC_INV = ["TypeOK", "C03_UniqueTrx", "C03_IndexExact", "C09_WellFormed", "C10_SealingRules"]
+MC_INV = ["TypeOK", "C03_UniqueTrx", "C03_IndexExact", "C09_WellFormed", "C10_SealingRules", "C05_CanonicalOnly"]
 MC_PROP = ["C03_Reproposable", "C09_LocalCreate", "C01_NoOverdraftConfirmed", "C01_OnlyTipsDropped",
            "C07_Transparent", "C14_LoadEqualsSource"]
 
@@ -221,6 +222,24 @@ def fam_truncation(rng):
     return out
 
 
+def fam_drain(rng):
+    """Wallets that are drained to exactly zero between truncations."""
+    out = []
+    chain = [G(), P("N1", "t1", 2), P("N1", "t2", 3), P("N1", "t3", 4), P("N1", "t6", 5), P("N1", "t5", 6)]
+    for depth in (1, 2):
+        ops = list(chain)
+        for i in range(6):
+            ops.append({"op": "truncate", "n": "N1"})
+        ops += [P("N1", "t4", 7), {"op": "truncate", "n": "N1"}, {"op": "truncate", "n": "N1"}]
+        out.append(("drain", depth, ops))
+        ops = [G(), P("N1", "t1", 2), {"op": "truncate", "n": "N1"}, P("N1", "t2", 3), {"op": "truncate", "n": "N1"},
+               P("N1", "t3", 4), {"op": "truncate", "n": "N1"}, P("N1", "t6", 5), {"op": "truncate", "n": "N1"},
+               P("N1", "t5", 6), {"op": "truncate", "n": "N1"}, P("N1", "t4", 7), {"op": "truncate", "n": "N1"},
+               {"op": "truncate", "n": "N1"}]
+        out.append(("drain", depth, ops))
+    return out
+
+
 def fam_concurrent(rng):
     """The same transaction racing through the lock boundary in every two-operation schedule."""
     out = []
@@ -287,6 +306,16 @@ def fam_orphans(rng, nperm):
            {"op": "tick", "n": "N2", "times": 30}, D("N2", 2), {"op": "tick", "n": "N2", "times": 3}, D("N2", 3),
            {"op": "compare", "n": "N1", "m": "N2"}]
     out.append(("twosingle", 2, ops))
+    # endurance of the orphan buffer: 20 orphans retried to exhaustion (more than 500 pops), then a late
+    # orphan must still be parked and is admitted once its parent arrives
+    ops = [G(), {"op": "load", "m": "N2", "n": "N1"}, P("N1", "t1", 2)]
+    for i in range(1, 21):
+        ops.append({"op": "craft", "s": "N3", "t": "c%d" % i, "l": 2, "r": 2, "w": 2, "id": 2 + i})
+        ops.append(D("N2", 2 + i))
+    ops.append({"op": "tick", "n": "N2", "times": 540})
+    ops += [{"op": "craft", "s": "N3", "t": "c21", "l": 2, "r": 2, "w": 2, "id": 23}, D("N2", 23), D("N2", 2),
+            {"op": "tick", "n": "N2", "times": 3}, D("N1", 23), {"op": "compare", "n": "N1", "m": "N2"}]
+    out.append(("twomany", 2, ops))
     # an invalid vertex (overdraft sealed by an untrusted node) parked and retried must not be built on
     ops = [G(), {"op": "load", "m": "N2", "n": "N1"}, P("N1", "t1", 2),
            {"op": "craft", "s": "N3", "t": "t6", "l": 2, "r": 2, "w": 2, "id": 3},
@@ -321,6 +350,17 @@ def fam_load(rng):
             out.append(("twosingle", 2, shapes[0] + [{"op": "load", "m": "N2", "n": "N1", "kind": kind, "cut": cut}]))
     out.append(("twosingle", 2, shapes[0] + [{"op": "craft", "s": "N3", "t": "t1", "l": 1, "r": 1, "w": 1, "id": 4},
                                              {"op": "load", "m": "N2", "n": "N1", "kind": "extra", "v": 4}]))
+    # a stream that carries a second self-sealed vertex / an empty transaction is refused
+    for sealer, t in (("A", "t3"), ("GR", "t2"), ("B", "t5")):
+        out.append(("twosingle", 2, shapes[0] + [{"op": "craft", "s": sealer, "t": t, "l": 2, "r": 3, "w": 3, "id": 4},
+                                                 {"op": "load", "m": "N2", "n": "N1", "kind": "extra", "v": 4}]))
+    out.append(("tworules", 2, [G(), P("N1", "t1", 2), {"op": "craft", "s": "N3", "t": "t9", "l": 2, "r": 2, "w": 2, "id": 3},
+                                {"op": "load", "m": "N2", "n": "N1", "kind": "extra", "v": 3}]))
+    # the sealing rules hold on a node that obtained its ledger by syncing
+    out.append(("tworules", 2, [G(), P("N1", "t1", 2), {"op": "load", "m": "N2", "n": "N1"}, P("N2", "t8", 3), P("N2", "t7", 4),
+                                P("N2", "t9", 5), P("N2", "t5", 6), P("N1", "t7", 7), D("N1", 6), D("N2", 7),
+                                {"op": "craft", "s": "N3", "t": "t8", "l": 2, "r": 2, "w": 2, "id": 8}, D("N2", 8),
+                                {"op": "craft", "s": "N2", "t": "t7", "l": 2, "r": 2, "w": 2, "id": 9}, D("N2", 9), D("N1", 9)]))
     # loading twice
     out.append(("twosingle", 2, shapes[0] + [{"op": "load", "m": "N2", "n": "N1"}, {"op": "load", "m": "N2", "n": "N1"}]))
     # source that has truncated
@@ -354,6 +394,20 @@ def fam_rules(rng):
     return out
 
 
+def fam_canon(rng):
+    """Amounts that are not canonical offered through every way into the ledger."""
+    out = []
+    out.append(("rules", 2, [G(), P("N1", "t1", 2), P("N1", "t10", 3),
+                             {"op": "craft", "s": "N2", "t": "t10", "l": 2, "r": 2, "w": 2, "id": 4}, D("N1", 4),
+                             {"op": "craft", "s": "N2", "t": "t10", "l": 1, "r": 4, "w": 3, "id": 5}, D("N1", 5),
+                             {"op": "tick", "n": "N1", "times": 2}, P("N1", "t5", 6)]))
+    out.append(("tworules", 2, [G(), P("N1", "t1", 2), {"op": "craft", "s": "N3", "t": "t10", "l": 2, "r": 2, "w": 2, "id": 3},
+                                {"op": "load", "m": "N2", "n": "N1", "kind": "extra", "v": 3}]))
+    out.append(("tworules", 2, [G(), P("N1", "t1", 2), {"op": "load", "m": "N2", "n": "N1"}, P("N2", "t10", 3),
+                                {"op": "craft", "s": "N3", "t": "t10", "l": 2, "r": 2, "w": 2, "id": 4}, D("N2", 4), D("N1", 4)]))
+    return out
+
+
 # ------------------------------------------------------------------------------------------
 # property table
 
@@ -371,16 +425,18 @@ PROPS = {
                 inv=["C03_UniqueTrx", "C03_IndexExact", "TypeOK"], prop=["C03_Reproposable"],
                 gens=[("single", 0.7), ("twosingle", 0.3)], fams=["concurrent", "truncation"], mc="single"),
     "C06": dict(strict=["Balance", "Wedged"], inv=[], prop=[],
-                gens=[("single", 0.7), ("twosingle", 0.3)], fams=["truncation", "load"], mc="single"),
+                gens=[("single", 0.4), ("drain", 0.3), ("twosingle", 0.3)], fams=["truncation", "load"], mc="single"),
     "C07": dict(strict=["Truncate", "ReadTrx", "ReadVertex", "ProposePre", "DeliverPre", "Balance", "Wedged"],
                 inv=["ReadsOK", "C03_UniqueTrx"], prop=["C07_Transparent"],
-                gens=[("single", 1.0)], fams=["truncation"], mc="single"),
+                gens=[("single", 0.5), ("drain", 0.5)], fams=["truncation"], mc="single"),
     "C09": dict(strict=["ProposeCommit", "Genesis", "Wedged"],
                 inv=["C09_WellFormed", "SelfAuthentic", "ViewConsistent", "TypeOK"], prop=["C09_LocalCreate"],
                 gens=[("single", 0.6), ("twosingle", 0.4)], fams=["truncation", "concurrent", "load"], mc="single"),
     "C10": dict(strict=["ProposePre", "DeliverPre", "Genesis", "TickPop", "Load", "Wedged"],
                 inv=["C10_SealingRules"], prop=[],
                 gens=[("rules", 0.7), ("twosingle", 0.3)], fams=["rules", "load"], mc="rules"),
+    "C05": dict(strict=["ProposePre", "DeliverPre", "Load", "Wedged"], inv=["C05_CanonicalOnly"], prop=[],
+                gens=[("rules", 0.6), ("tworules", 0.4)], fams=["canon", "rules"], mc="rules"),
     "C13": dict(strict=["DeliverPre", "DeliverCommit", "TickPop", "Compare", "Wedged"],
                 inv=["C03_UniqueTrx", "TypeOK"], prop=["C01_NoOverdraftConfirmed"],
                 gens=[("twosingle", 1.0)], fams=["orphans"], mc="two"),
@@ -389,12 +445,13 @@ PROPS = {
 }
 
 FAMS = {
-    "truncation": lambda rng, tier: fam_truncation(rng),
+    "truncation": lambda rng, tier: fam_truncation(rng) + fam_drain(rng),
     "concurrent": lambda rng, tier: fam_concurrent(rng),
     "orphans": lambda rng, tier: fam_orphans(rng, 120 if tier == "thorough" else 30),
     "load": lambda rng, tier: fam_load(rng),
     "doublespend": lambda rng, tier: fam_doublespend(rng),
     "rules": lambda rng, tier: fam_rules(rng),
+    "canon": lambda rng, tier: fam_canon(rng),
 }
 
 MC_CONFIGS = {
@@ -477,6 +534,20 @@ TRX["valid"] = [
     {"id": "t6", "iss": "B", "rcv": "A", "amt": 1, "data": False},
 ]
 SHAPES["twovalid"] = (["N1", "N2"], ["N1", "N2", "N3", "GR", "A", "B"], ["N3"], "valid")
+# every wallet is drained to exactly zero at some point (checkpoint entries must follow it down to zero)
+TRX["drain"] = [
+    {"id": "t1", "iss": "GR", "rcv": "A", "amt": 10, "data": False},
+    {"id": "t2", "iss": "A", "rcv": "B", "amt": 10, "data": False},
+    {"id": "t3", "iss": "B", "rcv": "A", "amt": 4, "data": False},
+    {"id": "t4", "iss": "A", "rcv": "A", "amt": 3, "data": False},
+    {"id": "t5", "iss": "B", "rcv": "A", "amt": 0, "data": True},
+    {"id": "t6", "iss": "A", "rcv": "B", "amt": 4, "data": False},
+]
+SHAPES["drain"] = (["N1"], ["N1", "N2", "GR", "A", "B"], ["N2"], "drain")
+SHAPES["tworules"] = (["N1", "N2"], ["N1", "N2", "N3", "GR", "A", "B"], ["N3"], "rules")
+TRX["many"] = [{"id": "c%d" % i, "iss": "A", "rcv": "B", "amt": 0, "data": True} for i in range(1, 25)] + \
+              [{"id": "t1", "iss": "GR", "rcv": "A", "amt": 6, "data": False}]
+SHAPES["twomany"] = (["N1", "N2"], ["N1", "N2", "N3", "GR", "A", "B"], ["N3"], "many")
 
 # known findings: (finding id, property, modulo invariant replaces strict invariant, witness family index)
 KNOWN = {
@@ -612,7 +683,7 @@ def event_line(res, pos):
     return None
 
 
-def check(prop, tier):
+def check(prop, tier, finish=True):
     t0 = time.time()
     sd = seed()
     rng = random.Random(sd * 7919 + hash(prop) % 1000)
@@ -704,6 +775,8 @@ def check(prop, tier):
            "conformance_checked_for": spec["strict"], "code_model": CODE_MODEL,
            "explanation": "states/transitions: bounded exhaustive TLC run of LedgerMC; traces: behaviours executed on "
                           "real AccountingBooks and validated by TLC against LedgerTrace.tla"}
+    if not finish:
+        return cov, violations
     write_evidence(prop, tier, "model_checking", cov, wall, len(violations),
                    ["projection and driver code in /verif/harness", "TLC", "crypto/ed25519 and sha256",
                     "background loops of the book are driven synchronously through the verif hooks"])
